@@ -144,7 +144,9 @@ func setupUniverse(bound bool) {
 var family = map[string]string{
 	"SetData": "storage-write", "RemoveData": "storage-write", "SetState": "storage-write",
 	"SetFT": "storage-write", "AddFT": "storage-write", "SubFT": "storage-write",
-	"TouchFT":  "touch", // AddFT with amount 0 on a non-balance token
+	"TouchFT": "touch", // AddFT with amount 0 on a non-balance token: reaches accountObject.touch() on an empty-looking account
+	// the other zero-amount entry points (they go through the ERC20 path / return early, but are the same "touch only" shape)
+	"AddBalance0": "touch", "SubBalance0": "touch", "Transfer0": "touch", "SubFT0": "touch",
 	"SetNonce": "nonce-write", "IncreaseNonce": "nonce-write",
 	"SetCode":    "code-write",
 	"AddBalance": "balance-write", "SubBalance": "balance-write", "SetBalance": "balance-write", "Transfer": "balance-write",
@@ -483,6 +485,14 @@ func (rn *runner) exec(o Op) {
 		adb.AddFT(a, ftNames[o.S%2], amts[1+o.V%(len(amts)-1)])
 	case "TouchFT":
 		adb.AddFT(a, ftNames[o.S%2], amts[0])
+	case "AddBalance0":
+		adb.AddBalance(a, amts[0])
+	case "SubBalance0":
+		adb.SubBalance(a, amts[0])
+	case "Transfer0":
+		adb.Transfer(a, uAddr[o.B%nUniverse], amts[0])
+	case "SubFT0":
+		adb.SubFT(a, ftNames[o.S%2], amts[0])
 	case "SubFT":
 		adb.SubFT(a, ftNames[o.S%2], amts[o.V%len(amts)])
 	case "SetFT":
